@@ -22,45 +22,7 @@ from .net import NetLoop
 from . import ctlworkers
 from .poolsim import silence_library_logging
 
-class LoopStalled(BaseException):
-    """Raised by the watchdog inside code that keeps the loop busy within ONE handle for seconds of wall time."""
-
-
-class _Watchdog:
-    """A single loop handle never legitimately takes seconds of CPU.  If the handle counter does not move between two
-    ticks of an interval timer that counts this process's own CPU time (so a busy machine cannot trip it), the code
-    running inside that handle is spinning: it is interrupted (so that the run can end) and the run is marked as
-    stalled - a violation, not a harness error."""
-    PERIOD = 5.0
-
-    def __init__(self, sim):
-        self.sim = sim
-        self.last = None
-        self.old = None
-
-    def start(self):
-        import signal
-        import threading
-        if threading.current_thread() is not threading.main_thread():
-            return
-        self.old = signal.signal(signal.SIGVTALRM, self._tick)
-        signal.setitimer(signal.ITIMER_VIRTUAL, self.PERIOD, self.PERIOD)
-
-    def stop(self):
-        import signal
-        if self.old is not None:
-            signal.setitimer(signal.ITIMER_VIRTUAL, 0)
-            signal.signal(signal.SIGVTALRM, self.old)
-            self.old = None
-
-    def _tick(self, signum, frame):
-        sim = self.sim
-        now = (sim.loop.handles_run, len(sim.events))
-        if now == self.last and getattr(sim.loop, "in_handle", False):
-            sim.stalled = True
-            self.last = None
-            raise LoopStalled("no progress within one loop handle for %.0f s of CPU time" % self.PERIOD)
-        self.last = now
+from .loop import LoopStalled, Watchdog as _Watchdog  # noqa: E402
 
 
 _POOL_TASK_RE = re.compile(r"_Task-\d+$")
@@ -610,6 +572,12 @@ class CtlSim:
         run = self.run
         self.inject = sorted(([i["h"], i["step"]] for i in run.get("inject", ())), key=lambda x: x[0])
         self.max_handles = run.get("max_handles", 400000)
+        if _Watchdog.tripped:
+            # an earlier run in this process stalled inside library code: skip (the stall itself is reported)
+            self.hit_cap = True
+            self.tmpdir = None
+            self.torn = True
+            return self
         gc_was = gc.isenabled()
         gc.disable()
         self.tmpdir = tempfile.mkdtemp(prefix="tpsim-")
